@@ -22,10 +22,36 @@ from vlib.session import run_case, Violation
 PID = "C18"
 
 # backend whose zeros are object arrays so that symbolic coefficients can be accumulated
+class RealBuffer(np.ndarray):
+    """object array standing for a *real* machine buffer: numpy silently discards the imaginary part of a complex number written into a
+    float64 array (ComplexWarning only); here such a write is a cast trap (TypeError), replayed on machine numbers before it is reported"""
+
+    def __setitem__(self, idx, val):
+        for e in np.asarray(val, dtype=object).reshape(-1):
+            im = None
+            if isinstance(e, zt.Z) and e.im is not None:
+                im = e.im
+                import z3
+                if zt._is_zero(z3.simplify(im)):
+                    im = None
+            elif isinstance(e, (complex, np.complexfloating)) and e.imag != 0:
+                im = e.imag
+            if im is not None:
+                if zt.have_ctl():
+                    zt.ctl().cast_traps.append(("real-buffer", str(im)[:80]))
+                raise TypeError("cast trap: symbolic entry forced to a machine float (complex value written into a real buffer)")
+        super().__setitem__(idx, val)
+
+
+RealBuffer.__module__ = "numpy"
+
+
 def _zobj_zeros(shape, dtype=None, **kw):
     # float / complex buffers become object arrays (they can hold terms); any other requested dtype (e.g. an integer
     # buffer) is honoured, so that a term written into it is seen as the cast it would be for numpy users
-    if dtype is None or str(np.dtype(dtype)) in ("float64", "float32", "complex128", "complex64", "object"):
+    if dtype is not None and str(np.dtype(dtype)) in ("float64", "float32"):
+        return np.zeros(shape, dtype=object).view(RealBuffer)
+    if dtype is None or str(np.dtype(dtype)) in ("complex128", "complex64", "object"):
         return np.zeros(shape, dtype=object)
     return np.zeros(shape, dtype=dtype)
 
@@ -57,6 +83,17 @@ def ket(states):
     return out
 
 
+def coef(S, name):
+    """coefficient: a term (sym); in numeric runs of the complex-coefficient families a numpy *complex64* scalar - neither a python complex nor a
+    subclass of it, as entries of a single-precision phase array are (values are multiples of 1/4: exact in single precision)"""
+    c = S.scalar(name)
+    if S.mode == "num" and S.complex_:
+        c = complex(c)
+        c = np.complex64(complex(round(c.real * 4) / 4 or 0.25, round(c.imag * 4) / 4 or 0.25))
+        S.tol = 1e-5
+    return c
+
+
 def lib_terms(S, terms):
     return [(c, [(m, "+" if cr else "-") for m, cr in ops]) for c, ops in terms]
 
@@ -70,7 +107,7 @@ def body_elements(S, spec):
     bases = spec["bases"]
     modes = sorted({m for b in bases for st in b for m in st} | {m for _, ops in spec["terms"] for m, _ in ops})
     F = Fock(modes)
-    terms = [(S.scalar(f"c{k}"), ops) for k, (_, ops) in enumerate(spec["terms"])]
+    terms = [(coef(S, f"c{k}"), ops) for k, (_, ops) in enumerate(spec["terms"])]
     got = flo.build_local_fermionic_elements(lib_terms(S, terms), lib_bases(bases))
     n = len(bases)
     for idx in itertools.product(*[range(len(b)) for b in bases] * 2):
@@ -164,7 +201,7 @@ def body_model(S, spec):
     za, zb = spec["coordinations"]
     like = like_for(S)
     if model == "spinless":
-        t, V, mua, mub = S.scalar("t"), S.scalar("V"), S.scalar("mua"), S.scalar("mub")
+        t, V, mua, mub = coef(S, "t"), coef(S, "V"), coef(S, "mua"), coef(S, "mub")
         mu = (mua, mub) if spec["site_dependent"] else mua
         if not spec["site_dependent"]:
             mub = mua
@@ -173,7 +210,7 @@ def body_model(S, spec):
         im = flo.get_spinless_charge_indexmap(sym)
         want_im = {"Z2": [0, 1], "U1": [0, 1]}[sym]
     elif model == "spinful":
-        t, Ua, Ub, mua, mub = S.scalar("t"), S.scalar("Ua"), S.scalar("Ub"), S.scalar("mua"), S.scalar("mub")
+        t, Ua, Ub, mua, mub = coef(S, "t"), coef(S, "Ua"), coef(S, "Ub"), coef(S, "mua"), coef(S, "mub")
         if spec["site_dependent"]:
             U, mu = (Ua, Ub), (mua, mub)
         else:
@@ -205,7 +242,7 @@ def body_array(S, spec):
     address its own site's charge map assigns, and equals the vacuum expectation value"""
     sym, bases, ims = spec["sym"], spec["bases"], spec["index_maps"]
     modes = sorted({m for b in bases for st in b for m in st})
-    terms = [(S.scalar(f"c{k}"), ops) for k, (_, ops) in enumerate(spec["terms"])]
+    terms = [(coef(S, f"c{k}"), ops) for k, (_, ops) in enumerate(spec["terms"])]
     if spec.get("first_literal") is not None:
         # a literal (int / float) first coefficient, as in the library's own number-operator terms
         terms[0] = (spec["first_literal"], terms[0][1])
